@@ -22,9 +22,10 @@ struct AlphaCase {
 /// A block of mutations of one seed: every mutation of `kind` at offsets from..to (all values, or only `value`).
 #[derive(Serialize, Deserialize, Hash, Clone, Debug)]
 struct MutCase {
+    /// `<format>/<name>` of the seed
     seed: String,
-    /// hash of the seed bytes the case was generated from (replay refuses to run on a different seed)
-    seed_hash: String,
+    /// the seed itself (the index and other seeds contain stat data / temp paths, so a case carries its seed to stay replayable)
+    bytes: B,
     kind: Kind,
     from: usize,
     to: usize,
@@ -438,7 +439,7 @@ fn evaluate(ep: &Ep, input: &[u8], ctx: &Ctx, announce: bool) -> Result<&'static
     let r = vkit::catch(|| (ep.drive)(input, ctx));
     let peak = crate::alloc::max_request();
     match r {
-        Err(p) => Err(format!("panic: {} on input ({} bytes) {}: {p}", ep.name, input.len(), vkit::bytes::escape(&input[..input.len().min(300)]))),
+        Err(p) => Err(format!("panic: {}: {p} -- input ({} bytes) {}", ep.name, input.len(), vkit::bytes::escape(&input[..input.len().min(200)]))),
         Ok(_) if peak >= crate::alloc::FLAG => {
             Err(format!("alloc-bomb: {}: a single allocation of {peak} bytes was requested for an input of {} bytes", ep.name, input.len()))
         }
@@ -536,7 +537,7 @@ fn mutations_of(seed: &[u8], c: &MutCase, mut f: impl FnMut(Mutation)) {
     }
 }
 
-const MUT_BLOCK: usize = 64;
+const MUT_BLOCK: usize = 16;
 
 pub fn run(run: &'static Run) {
     let eps = entry_points();
@@ -544,8 +545,8 @@ pub fn run(run: &'static Run) {
     run.rule(
         "per entry point (one sub-check each, `<name>` = token strings, `<name>~seeds` = mutations): (a) every concatenation of <= L tokens of a per-format token alphabet (L = quick/thorough, see coverage key `alphabets`); \
          (b) for every git-produced valid seed of the format: the seed itself, truncation at every offset, every byte set to 0x00 / 0xff / ^0x01 / ^0x80, \
-         every 32-bit big-endian field at every byte offset set to 0 / 1 / 0x7fffffff / 0xffffffff. Oracle: decoder + walk of the decoded value returns without panic/abort; a block of <= 4096 inputs must finish within 5 s; \
-         a single allocation request >= 64 MiB is flagged, >= 1 GiB is refused (abort, attributed by the driver). One vkit case = one block of inputs (prefix + all short tails / 64 offsets of one mutation kind); \
+         every 32-bit big-endian field at every byte offset set to 0 / 1 / 0x7fffffff / 0xffffffff. Oracle: decoder + walk of the decoded value returns without panic/abort; a block (<= 4096 token strings / <= 64 mutations) must finish within 5 s; \
+         a single allocation request >= 64 MiB is flagged, >= 1 GiB is refused (abort, attributed by the driver). One vkit case = one block of inputs (prefix + all short tails / 16 offsets of one mutation kind; a mutation case carries its seed bytes); \
          per-input counts are in coverage keys `inputs`, `inputs_accepted`, `input_outcomes`. \
          non-trivial block = a decoder accepted at least one input, or the inputs are mutations of a valid encoding (reach deep decoder states)",
     );
@@ -556,7 +557,14 @@ pub fn run(run: &'static Run) {
 
     // ---- seeds (built in every mode: a replayed mutation case needs its seed) ----
     let root = vkit::scratch::Dir::new("c06seeds");
-    let corpus = seeds::build(root.path(), run.quick());
+    // a replayed case carries its own seed bytes; only split-index cases need the shared index file that git wrote next to the seed
+    let replay_needs_corpus = run.is_replay()
+        && eps.iter().any(|ep| run.replay_case::<MutCase>(&format!("{}~seeds", ep.name)).map_or(false, |c| c.seed.contains("link")));
+    let corpus = if run.is_replay() && !replay_needs_corpus {
+        seeds::Corpus { seeds: Vec::new(), shared_index: None }
+    } else {
+        seeds::build(root.path(), run.quick())
+    };
     let files = vkit::scratch::Dir::new("c06files");
     if let Some((name, bytes)) = &corpus.shared_index {
         if let Err(e) = std::fs::write(files.join(name), bytes) {
@@ -653,8 +661,7 @@ pub fn run(run: &'static Run) {
             opts().chunk(64),
             |emit| {
                 for (name, s) in &by_name {
-                    let h = format!("{:016x}", vkit::hash_of(&s.bytes));
-                    let mk = |kind, from, to| MutCase { seed: name.clone(), seed_hash: h.clone(), kind, from, to, value: None };
+                    let mk = |kind, from, to| MutCase { seed: name.clone(), bytes: B(s.bytes.clone()), kind, from, to, value: None };
                     emit(mk(Kind::Seed, 0, 0));
                     for kind in [Kind::Trunc, Kind::Byte, Kind::U32] {
                         let mut from = 0;
@@ -666,21 +673,17 @@ pub fn run(run: &'static Run) {
                 }
             },
             |c: &MutCase| -> Verdict {
-                let Some(s) = corpus.seeds.iter().find(|s| format!("{}/{}", s.format, s.name) == c.seed) else {
-                    vkit::machinery!("seed {} does not exist in this run", c.seed)
-                };
-                if format!("{:016x}", vkit::hash_of(&s.bytes)) != c.seed_hash {
-                    vkit::machinery!("seed {} differs from the one the case was generated from (git output changed)", c.seed);
-                }
-                if c.kind == Kind::Seed && s.format == primary {
-                    match evaluate(ep, &s.bytes, &ctx, false) {
+                let format = c.seed.split('/').next().unwrap_or("");
+                let seed: &[u8] = &c.bytes;
+                if c.kind == Kind::Seed && format == primary {
+                    match evaluate(ep, seed, &ctx, false) {
                         Ok(class) if !class.starts_with("ok") => vkit::machinery!("entry point {} rejects its own valid seed {} ({class})", ep.name, c.seed),
                         _ => {}
                     }
                 }
                 run_block(run, &sub, ep, &ctx, &stats, c.kind != Kind::Seed, &mut |f| {
-                    mutations_of(&s.bytes, c, |m| {
-                        let input = mutate::apply(&s.bytes, &m);
+                    mutations_of(seed, c, |m| {
+                        let input = mutate::apply(seed, &m);
                         f(&input, &|| {
                             let (kind, at, value) = match m {
                                 Mutation::None => (Kind::Seed, 0, None),
@@ -688,7 +691,7 @@ pub fn run(run: &'static Run) {
                                 Mutation::Byte(at, v) => (Kind::Byte, at, Some(u32::from(v))),
                                 Mutation::U32(at, v) => (Kind::U32, at, Some(v)),
                             };
-                            MutCase { seed: c.seed.clone(), seed_hash: c.seed_hash.clone(), kind, from: at, to: at + 1, value }
+                            MutCase { seed: c.seed.clone(), bytes: c.bytes.clone(), kind, from: at, to: at + 1, value }
                         });
                     })
                 })
